@@ -246,21 +246,37 @@ pub fn do_op(ck: &CK, op: &Op) -> String {
             };
             match r { Ok(b) => b.to_string(), Err(_) => "err".into() }
         }
+        // both ways of reading a ValueRef (value() + release(), read()) and all ways of writing through a
+        // ValueRefMut (write, value_mut, write_once; value() / clone_inner() for the old value)
         (CK::S(c), Op::Get { idx, conf }) => match c.get(&mkkey(*idx, *conf)) {
             None => "get:none".into(),
-            Some(v) => { let s = format!("get:{}:{}", v.value(), ttl_str(v.ttl())); v.release(); s }
+            Some(v) => {
+                let ttl = ttl_str(v.ttl());
+                if (*idx + *conf) % 2 == 0 { let s = format!("get:{}:{}", v.value(), ttl); v.release(); s } else { format!("get:{}:{}", v.read(), ttl) }
+            }
         },
         (CK::A(c), Op::Get { idx, conf }) => match block_on(c.get(&mkkey(*idx, *conf))) {
             None => "get:none".into(),
-            Some(v) => { let s = format!("get:{}:{}", v.value(), ttl_str(v.ttl())); v.release(); s }
+            Some(v) => {
+                let ttl = ttl_str(v.ttl());
+                if (*idx + *conf) % 2 == 0 { let s = format!("get:{}:{}", v.value(), ttl); v.release(); s } else { format!("get:{}:{}", v.read(), ttl) }
+            }
         },
         (CK::S(c), Op::GetMutWrite { idx, conf, val }) => match c.get_mut(&mkkey(*idx, *conf)) {
             None => "getmut:none".into(),
-            Some(mut v) => { let s = format!("getmut:{}", v.value()); v.write(*val); drop(v); s }
+            Some(mut v) => {
+                let s = if val % 2 == 0 { format!("getmut:{}", v.value()) } else { format!("getmut:{}", v.clone_inner()) };
+                match val % 3 { 0 => { v.write(*val); drop(v); } 1 => { *v.value_mut() = *val; v.release(); } _ => v.write_once(*val) }
+                s
+            }
         },
         (CK::A(c), Op::GetMutWrite { idx, conf, val }) => match block_on(c.get_mut(&mkkey(*idx, *conf))) {
             None => "getmut:none".into(),
-            Some(mut v) => { let s = format!("getmut:{}", v.value()); v.write(*val); drop(v); s }
+            Some(mut v) => {
+                let s = if val % 2 == 0 { format!("getmut:{}", v.value()) } else { format!("getmut:{}", v.clone_inner()) };
+                match val % 3 { 0 => { v.write(*val); drop(v); } 1 => { *v.value_mut() = *val; v.release(); } _ => v.write_once(*val) }
+                s
+            }
         },
         (CK::S(c), Op::GetTtl { idx, conf }) => c.get_ttl(&mkkey(*idx, *conf)).map_or("ttl:none".into(), |d| format!("ttl:{}", ttl_str(d))),
         (CK::A(c), Op::GetTtl { idx, conf }) => c.get_ttl(&mkkey(*idx, *conf)).map_or("ttl:none".into(), |d| format!("ttl:{}", ttl_str(d))),
@@ -1035,6 +1051,15 @@ pub fn suite_defaults(t: &mut Trace) -> String {
         c.remove(&1);
         let _ = c.wait();
         check!("C02", c.get(&1).is_none() && c.len() == 0, "get(1) after remove(1) and wait() still finds something");
+        let b: Cache<u64, u64, stretto::TransparentKeyBuilder<u64>> = Cache::<u64, u64>::builder(1, 1)
+            .set_num_counters(200).set_max_cost(77).set_buffer_size(8).set_buffer_items(4)
+            .set_key_builder(stretto::TransparentKeyBuilder::<u64>::default()).finalize().expect("builder");
+        check!("C20", b.max_cost() == 77, "builder.set_max_cost(77) gives max_cost() = {}", b.max_cost());
+        let sb = verif::snapshot(&b);
+        check!("C20", sb.policy.tlfu.samples == 200, "builder.set_num_counters(200) gives an aging window of {}", sb.policy.tlfu.samples);
+        check!("C18", b.insert(9, 90, 1) && b.wait().is_ok() && verif::snapshot(&b).store.iter().any(|e| e.index == 9 && e.conflict == 0),
+               "set_key_builder(TransparentKeyBuilder) does not store key 9 under index 9 / conflict 0");
+        let _ = b.close();
         let sc: Cache<String, u64> = Cache::new(100, 5000).expect("Cache::new");
         check!("C18", sc.insert("alpha".to_string(), 7, 1), "insert(String) returned false");
         let _ = sc.wait();
